@@ -1,5 +1,7 @@
 /* C07 — repacketizer, pad and unpad preserve frames and always emit valid packets.
  *
+ * Parts (spec.json): seq = depth 3 on the full alphabet of 8 TOC configurations (one per frame duration 2.5/5/10/20/40/60 ms
+ * plus two stereo ones); seqdeep = depth 5 (thorough 6) on a tiny alphabet; seq4 (thorough) = depth 4 on a reduced alphabet.
  * mode seq : explicit-state search (depth-bounded DFS with a shared visited set) over sequences of
  *            init / cat(p) on the REAL OpusRepacketizer object, p ranging over the packet alphabet P7 of one TOC
  *            configuration (valid packets of every code, CBR/VBR, 1/2/3/48 frames, five padding kinds, invalid
@@ -67,6 +69,11 @@ static const char *hist_str(const int *hist,int nh){
 }
 
 /* ------------------------------------------------------------------ per-range oracle */
+static int SWEEP;
+/* failures with a reserved (design-time) signature are counted every time but written out only for the first three
+   occurrences per item: formatting millions of identical reports would dominate the run time */
+static int kf_cnt[6]; static long kf_item=-2;
+static int kf_report(int k){ long it=mc_cur_item(); if(it!=kf_item){ kf_item=it; memset(kf_cnt,0,sizeof kf_cnt); } return kf_cnt[k]++<3; }
 typedef struct { const OpusRepacketizer *rp0; OpusRepacketizer *rp; const model *m; const int *hist; int nh; } bctx;
 
 static int src_first(const model *m,int j){ return j-m->fi[j]; }          /* state index of the first frame of frame j's source packet */
@@ -82,7 +89,7 @@ static int expected_exts(const model *m,int b,int e,xdecl *out,int *src_begins_b
 static void observe(int kind,int code,int cnt,int vbr,int pad,int fit,int nstate,const bctx *c,int b,int e,int maxlen,int r){
    uint64_t h=mc_mix(mc_mix(kind,code),mc_mix(cnt<3?cnt:(cnt<48?3:4),vbr*4+pad*2+fit)); h=mc_mix(h,nstate<4?nstate:(nstate<48?4:5));
    if(mc_set_add(S_cls,h)){ MC_INC(c_dn);
-      mc_sample("%s ops=[%s] out_range(%d,%d,maxlen=%d)=%d -> code %d, %d frames, vbr=%d, padding=%d: frames byte-identical to the model",kind==1?"ext-carrying":"plain",hist_str(c->hist,c->nh),b,e,maxlen,r,code,cnt,vbr,pad); }
+      if(cnt>=2||kind==1) mc_sample("%s ops=[%s] out_range(%d,%d,maxlen=%d)=%d -> code %d, %d frames, vbr=%d, padding=%d: frames byte-identical to the model",kind==1?"ext-carrying":"plain",hist_str(c->hist,c->nh),b,e,maxlen,r,code,cnt,vbr,pad); }
 }
 
 /* one out/out_range call; returns r. checks: r<=maxlen, canary, and (r>0) frames == model frames b..e-1.  *vfail set if content was wrong */
@@ -125,7 +132,7 @@ static void check_carriage(const bctx *c,int b,int e,int maxlen,int r,const unsi
    for(j=0;j<ng;j++) if(!used[j]) other++;
    if(other){ mc_fail("out_extension_carriage:mismatch","ops=[%s] out_range(%d,%d,maxlen=%d)=%d output=%s: extensions on the output frames differ from those declared on the selected frames (%d expected, %d reported)",hist_str(c->hist,c->nh),b,e,maxlen,r,mc_hex(d,r<64?r:64),nexp,(int)ng); }
    else if(missing_inside){ MC_INC(c_f9b);
-      mc_fail("out_range_split_extensions:range_begins_inside","ops=[%s] out_range(%d,%d,maxlen=%d)=%d output=%s: %d extension(s) of selected frames are missing; their source packet starts before frame %d (padding is stored at the packet's first frame only)",hist_str(c->hist,c->nh),b,e,maxlen,r,mc_hex(d,r<64?r:64),missing_inside,b); }
+      if(kf_report(2)) mc_fail("out_range_split_extensions:range_begins_inside","ops=[%s] out_range(%d,%d,maxlen=%d)=%d output=%s: %d extension(s) of selected frames are missing; their source packet starts before frame %d (padding is stored at the packet's first frame only)",hist_str(c->hist,c->nh),b,e,maxlen,r,mc_hex(d,r<64?r:64),missing_inside,b); }
 }
 
 static void range_battery(const bctx *c,int b,int e){
@@ -138,9 +145,10 @@ static void range_battery(const bctx *c,int b,int e){
       if(src_first(m,j)>=b){ for(i=0;i<p->nx;i++) if(src_first(m,j)+p->x[i].frame>=e) f9end=1; } }
    if(!has_ext&&!has_bad){
       /* plain contents: the model knows the exact minimum */
-      static const int K=6; int ml[6]; ml[0]=big; ml[1]=need_min; ml[2]=need_min-1; ml[3]=need_min+1; ml[4]=0; ml[5]=1;
-      for(i=0;i<K;i++){ int maxlen=ml[i];
-         r=call_out(c,b,e,maxlen,need_min+8,full&&i==0,&d,&o,&vf);
+      int ml[80],K=0,api; ml[K++]=big; ml[K++]=need_min; ml[K++]=need_min-1; ml[K++]=need_min+1; ml[K++]=0; ml[K++]=1;
+      if(need_min<=SWEEP) for(i=2;i<=need_min+2&&K<80;i++) if(i!=need_min&&i!=need_min-1&&i!=need_min+1) ml[K++]=i;   /* every maxlen up to need+2 for small outputs */
+      for(api=0;api<=full;api++) for(i=0;i<K;i++){ int maxlen=ml[i];
+         r=call_out(c,b,e,maxlen,need_min+8,api,&d,&o,&vf);
          if(maxlen>=need_min){
             if(r<0){
                if(i==0) mc_fail("maxlen_1277n_insufficient:no_extensions","ops=[%s] out_range(%d,%d,maxlen=1277*%d=%d)=%d (%s); model minimum is %d bytes",hist_str(c->hist,c->nh),b,e,cnt,maxlen,r,errname(r),need_min);
@@ -163,9 +171,9 @@ static void range_battery(const bctx *c,int b,int e){
    r=call_out(c,b,e,G,need_min+64,0,&d,&o,&vf);
    if(r<0){
       if(r==OPUS_INTERNAL_ERROR&&has_bad){ MC_INC(c_f3); known=1;
-         mc_fail("out_internal_error:unparsable_padding","ops=[%s] out_range(%d,%d,maxlen=%d)=OPUS_INTERNAL_ERROR: an accepted packet in the range has padding that is not a well-formed extension list",hist_str(c->hist,c->nh),b,e,G); }
+         if(kf_report(0)) mc_fail("out_internal_error:unparsable_padding","ops=[%s] out_range(%d,%d,maxlen=%d)=OPUS_INTERNAL_ERROR: an accepted packet in the range has padding that is not a well-formed extension list",hist_str(c->hist,c->nh),b,e,G); }
       else if(r==OPUS_BAD_ARG&&f9end){ MC_INC(c_f9e); known=1;
-         mc_fail("out_range_split_extensions:range_ends_inside","ops=[%s] out_range(%d,%d,maxlen=%d)=OPUS_BAD_ARG for a valid range: a packet starting inside the range carries an extension for a frame at or beyond %d",hist_str(c->hist,c->nh),b,e,G,e); }
+         if(kf_report(1)) mc_fail("out_range_split_extensions:range_ends_inside","ops=[%s] out_range(%d,%d,maxlen=%d)=OPUS_BAD_ARG for a valid range: a packet starting inside the range carries an extension for a frame at or beyond %d",hist_str(c->hist,c->nh),b,e,G,e); }
       else { char sig[80]; snprintf(sig,sizeof sig,"out_error_with_padding_contents:%s",errname(r)); known=1;
          mc_fail(sig,"ops=[%s] out_range(%d,%d,maxlen=%d)=%d on a valid range (has_ext=%d has_bad=%d)",hist_str(c->hist,c->nh),b,e,G,r,has_ext,has_bad); }
       need=-1;
@@ -177,7 +185,7 @@ static void range_battery(const bctx *c,int b,int e){
    {
       int ml[6],K=0; ml[K++]=big; if(need>0){ ml[K++]=need; ml[K++]=need-1; ml[K++]=need+1; } ml[K++]=0; ml[K++]=1;
       for(i=0;i<K;i++){ int maxlen=ml[i];
-         r=call_out(c,b,e,maxlen,(need>0?need:need_min)+64,full&&i==0,&d,&o,&vf);
+         r=call_out(c,b,e,maxlen,(need>0?need:need_min)+64,full&&(i&1),&d,&o,&vf);
          if(r>0){ if(!vf){ MC_INC(c_out_ok); check_carriage(c,b,e,maxlen,r,d,&o); observe(1,o.toc&3,cnt,o.vbr,o.pad_len>0,r==maxlen,m->n,c,b,e,maxlen,r); } continue; }
          if(r==0||known) continue;                    /* r==0 already reported; known: the generous call already failed for this range */
          if(need>0&&maxlen>=need){
@@ -186,7 +194,7 @@ static void range_battery(const bctx *c,int b,int e){
          } else if(need>0){
             if(r!=OPUS_BUFFER_TOO_SMALL){ char sig[80]; snprintf(sig,sizeof sig,"out_too_small_wrong_error:%s",errname(r)); mc_fail(sig,"ops=[%s] out_range(%d,%d,maxlen=%d)=%d, expected OPUS_BUFFER_TOO_SMALL (needs %d)",hist_str(c->hist,c->nh),b,e,maxlen,r,need); }
             else if(i==0){ /* 1277 bytes per selected frame were refused */
-               if(has_ext){ MC_INC(c_f8); mc_fail("maxlen_1277n_insufficient:with_extensions","ops=[%s] out_range(%d,%d,maxlen=1277*%d=%d)=OPUS_BUFFER_TOO_SMALL: with the carried extensions the output needs %d bytes",hist_str(c->hist,c->nh),b,e,cnt,maxlen,need); }
+               if(has_ext){ MC_INC(c_f8); if(kf_report(3)) mc_fail("maxlen_1277n_insufficient:with_extensions","ops=[%s] out_range(%d,%d,maxlen=1277*%d=%d)=OPUS_BUFFER_TOO_SMALL: with the carried extensions the output needs %d bytes",hist_str(c->hist,c->nh),b,e,cnt,maxlen,need); }
                else mc_fail("maxlen_1277n_insufficient:no_extensions","ops=[%s] out_range(%d,%d,maxlen=1277*%d=%d)=OPUS_BUFFER_TOO_SMALL, needs %d, no extension is carried",hist_str(c->hist,c->nh),b,e,cnt,maxlen,need);
             } else MC_INC(c_out_small);
          }
@@ -277,7 +285,7 @@ static void seq_item(long it,void *ctx){
 }
 
 static void build_seq_alphabet(int ncfg,int reduced){
-   static const int T[8]={0x80,0x08,0x18,0x6C,0xF8,0x48,0x90,0x64}; int c,k;
+   static const int T[8]={0x80,0x08,0x18,0x6C,0x88,0x90,0x10,0xFC};  /* 2.5 ms CELT, 20 ms SILK, 60 ms SILK, 20 ms hybrid stereo, 5 ms, 10 ms CELT, 40 ms SILK, 20 ms CELT FB stereo */ int c,k;
    NCFG=ncfg;
    for(c=0;c<ncfg;c++){ int first=NA; CFG_TOC[c]=T[c]; build_group(T[c],c,reduced);
       OPS[c]=malloc(sizeof(int)*(NA-first+1)); NOPS[c]=0; OPS[c][NOPS[c]++]=-1; for(k=first;k<NA;k++) OPS[c][NOPS[c]++]=k; }
@@ -298,14 +306,14 @@ static void pad_one(const apkt *p,int new_len){
    for(i=0;i<p->m.count;i++){ fp[i]=p->b+p->m.off[i]; fl[i]=p->m.size[i]; }
    if(new_len<n){ if(r>=0) mc_fail("pad_to_shorter_not_refused","pad(%s len=%d -> %d)=%d",p->name,n,new_len,r); else MC_INC(c_pad_rej); free(buf); return; }
    if(r!=OPUS_OK){
-      if(r==OPUS_INTERNAL_ERROR&&p->padkind==PK_BAD){ MC_INC(c_pad_f3); mc_fail("pad_internal_error:unparsable_padding","opus_packet_pad(%s = %s, len=%d, new_len=%d)=OPUS_INTERNAL_ERROR: valid packet whose padding is not a well-formed extension list",p->name,mc_hex(p->b,n<40?n:40),n,new_len); }
+      if(r==OPUS_INTERNAL_ERROR&&p->padkind==PK_BAD){ MC_INC(c_pad_f3); if(kf_report(4)) mc_fail("pad_internal_error:unparsable_padding","opus_packet_pad(%s = %s, len=%d, new_len=%d)=OPUS_INTERNAL_ERROR: valid packet whose padding is not a well-formed extension list",p->name,mc_hex(p->b,n<40?n:40),n,new_len); }
       else { char sig[96]; snprintf(sig,sizeof sig,"pad_fails:%s:%s",errname(r),p->nx?"with_extensions":(p->padkind==PK_BAD?"unparsable_padding":"plain")); mc_fail(sig,"opus_packet_pad(%s = %s%s, len=%d, new_len=%d)=%d",p->name,mc_hex(p->b,n<40?n:40),n>40?"..":"",n,new_len,r); }
       free(buf); return; }
    MC_INC(c_pad_ok);
    rfc_parse(buf,new_len,0,&o); v=frames_cmp(&o,buf,p->m.toc,p->m.count,fp,fl);
    if(v||!lib_parse_agrees(buf,new_len,&o)){ char sig[64]; snprintf(sig,sizeof sig,"pad_content:%s",v?FCMP[v]:"opus_packet_parse_disagrees"); mc_fail(sig,"opus_packet_pad(%s = %s%s, len=%d, new_len=%d)=OK but the %d-byte result %s%s does not hold the same frames",p->name,mc_hex(p->b,n<40?n:40),n>40?"..":"",n,new_len,new_len,mc_hex(buf,new_len<48?new_len:48),new_len>48?"..":""); free(buf); return; }
    { uint64_t h=mc_mix(mc_mix(o.toc&3,o.count<3?o.count:3),mc_mix(o.vbr,o.pad_len==0?0:o.pad_len<254?1:o.pad_len<508?2:3)); h=mc_mix(h,p->padkind);
-     if(mc_set_add(S_padcls,h)){ MC_INC(c_dn); mc_sample("pad(%s = %s%s, len=%d -> new_len=%d)=OK -> code %d, %d frames, %d padding data bytes, frames identical; unpad canonical+idempotent",p->name,mc_hex(p->b,n<24?n:24),n>24?"..":"",n,new_len,o.toc&3,o.count,o.pad_len); } }
+     if(mc_set_add(S_padcls,h)){ MC_INC(c_dn); if(o.count>=2||p->padkind!=PK_NONE) mc_sample("pad(%s = %s%s, len=%d -> new_len=%d)=OK -> code %d, %d frames, %d padding data bytes, frames identical; unpad canonical+idempotent",p->name,mc_hex(p->b,n<24?n:24),n>24?"..":"",n,new_len,o.toc&3,o.count,o.pad_len); } }
    /* unpad of the padded packet: never longer, canonical (the unique smallest packet with these frames), idempotent */
    { static unsigned char canon[70000]; int cl=frames_min_build(canon,p->m.toc,p->m.count,fp,fl,0); unsigned char *b2;
      u=opus_packet_unpad(buf,new_len); MC_INC(c_trans); MC_INC(c_eval); MC_INC(c_unpad);
@@ -389,12 +397,12 @@ static void ms_tuple(const int *t,int S){
       r=opus_multistream_packet_pad(buf,n,new_len,S); MC_INC(c_trans); MC_INC(c_eval); MC_INC(c_ms_pad);
       if(new_len<n){ if(r>=0) mc_fail("ms_pad_to_shorter_not_refused","ms_pad(streams=%d tuple=(%s) len=%d -> %d)=%d",S,tuple_str(t,S),n,new_len,r); free(buf); continue; }
       if(r!=OPUS_OK){
-         if(r==OPUS_INTERNAL_ERROR&&Q[t[S-1]].padkind==PK_BAD){ MC_INC(c_ms_f3); mc_fail("ms_pad_internal_error:unparsable_padding","opus_multistream_packet_pad(streams=%d tuple=(%s) %s%s, len=%d, new_len=%d)=OPUS_INTERNAL_ERROR: last stream's padding is not a well-formed extension list",S,tuple_str(t,S),mc_hex(src,n<40?n:40),n>40?"..":"",n,new_len); }
+         if(r==OPUS_INTERNAL_ERROR&&Q[t[S-1]].padkind==PK_BAD){ MC_INC(c_ms_f3); if(kf_report(5)) mc_fail("ms_pad_internal_error:unparsable_padding","opus_multistream_packet_pad(streams=%d tuple=(%s) %s%s, len=%d, new_len=%d)=OPUS_INTERNAL_ERROR: last stream's padding is not a well-formed extension list",S,tuple_str(t,S),mc_hex(src,n<40?n:40),n>40?"..":"",n,new_len); }
          else { char sig[96]; snprintf(sig,sizeof sig,"ms_pad_fails:%s:%s",errname(r),Q[t[S-1]].padkind==PK_EXT0?"with_extensions":"plain"); mc_fail(sig,"opus_multistream_packet_pad(streams=%d tuple=(%s) %s%s, len=%d, new_len=%d)=%d",S,tuple_str(t,S),mc_hex(src,n<40?n:40),n>40?"..":"",n,new_len,r); }
          free(buf); continue; }
       v=ms_check(buf,new_len,t,S,&which);
       if(v){ char sig[64]; snprintf(sig,sizeof sig,"ms_pad_content:%s",v==6?"length_not_exact":FCMP[v]); mc_fail(sig,"opus_multistream_packet_pad(streams=%d tuple=(%s), len=%d, new_len=%d)=OK but stream %d of the result %s%s is wrong",S,tuple_str(t,S),n,new_len,which,mc_hex(buf,new_len<48?new_len:48),new_len>48?"..":""); free(buf); continue; }
-      { uint64_t h=mc_mix(mc_mix(S,t[S-1]),D[di]); if(mc_set_add(S_mscls,h)){ MC_INC(c_dn); mc_sample("ms_pad(streams=%d shapes=(%s) %s%s, len=%d -> %d)=OK: every stream re-parses to its frames; ms_unpad -> %d bytes canonical, idempotent",S,tuple_str(t,S),mc_hex(src,n<24?n:24),n>24?"..":"",n,new_len,cl); } }
+      { uint64_t h=mc_mix(mc_mix(S,t[S-1]),D[di]); if(mc_set_add(S_mscls,h)){ MC_INC(c_dn); if(S>=2&&D[di]>0&&(t[0]||t[S-1])) mc_sample("ms_pad(streams=%d shapes=(%s) %s%s, len=%d -> %d)=OK: every stream re-parses to its frames; ms_unpad -> %d bytes canonical, idempotent",S,tuple_str(t,S),mc_hex(src,n<24?n:24),n>24?"..":"",n,new_len,cl); } }
       u=opus_multistream_packet_unpad(buf,new_len,S); MC_INC(c_trans); MC_INC(c_eval); MC_INC(c_ms_unpad);
       if(u<=0||u>new_len) mc_fail(u<=0?"ms_unpad_fails":"ms_unpad_longer_than_input","ms_unpad(ms_pad(streams=%d tuple=(%s), %d -> %d))=%d",S,tuple_str(t,S),n,new_len,u);
       else if(u!=cl||memcmp(buf,canon,cl)) mc_fail("ms_unpad_not_canonical","ms_unpad(ms_pad(streams=%d tuple=(%s), %d -> %d))=%d bytes %s, per-stream smallest packets: %d bytes %s",S,tuple_str(t,S),n,new_len,u,mc_hex(buf,u<48?u:48),cl,mc_hex(canon,cl<48?cl:48));
@@ -433,7 +441,7 @@ int main(int argc,char **argv){
    c_states=mc_counter("states"); c_trans=mc_counter("transitions"); c_eval=mc_counter("evaluations"); c_dn=mc_counter("distinct_nontrivial");
    OB=malloc(OBN);
    if(!strcmp(mode,"seq")){
-      int ncfg=(int)mc_arg("--cfgs",4), reduced=(int)mc_arg("--reduced",0); long nit=0;
+      int ncfg=(int)mc_arg("--cfgs",4), reduced=(int)mc_arg("--reduced",0); long nit=0; SWEEP=(int)mc_arg("--sweep",40);
       MAXD=(int)mc_arg("--depth",3); SPLIT=(int)mc_arg("--split",1); if(MAXD>6) MAXD=6; if(SPLIT>MAXD) SPLIT=MAXD;
       c_cat_ok=mc_counter("cat_accepted"); c_cat_rej=mc_counter("cat_rejected"); c_out_ok=mc_counter("out_verified"); c_out_small=mc_counter("out_buffer_too_small_as_expected");
       c_out_badrange=mc_counter("out_invalid_range_calls"); c_ranges=mc_counter("ranges_checked"); c_extcheck=mc_counter("extension_carriage_checks"); c_maxframes=mc_counter("max_frames_in_a_state");
@@ -441,19 +449,20 @@ int main(int argc,char **argv){
       S_state=mc_set_new(MC.tier?26:24); S_exp=mc_set_new(MC.tier?27:25); S_cls=mc_set_new(14);
       build_seq_alphabet(ncfg,reduced); index_packets(); check_decl_table();
       for(i=0;i<NCFG;i++){ ITEM_BASE[i]=nit; nit+= SPLIT==1? NOPS[i] : (long)NOPS[i]*NOPS[i]; } ITEM_BASE[NCFG]=nit;
-      mc_info("seq: %d config groups, %d packets, ops per group %d/%d/%d/%d, depth %d, %ld items",NCFG,NA,NOPS[0],NCFG>1?NOPS[1]:0,NCFG>2?NOPS[2]:0,NCFG>3?NOPS[3]:0,MAXD,nit);
+      { char b[160]; int k=0; for(i=0;i<NCFG;i++) k+=snprintf(b+k,sizeof b-k,"%s%02x:%d",i?" ":"",CFG_TOC[i],NOPS[i]);
+        mc_info("seq: %d config groups (toc:ops %s), %d packets, alphabet level %d, depth %d, maxlen sweep up to %d, %ld items",NCFG,b,NA,reduced,MAXD,SWEEP,nit); }
       mc_par(nit,seq_item,NULL);
       { mc_ctr *d=mc_counter("alphabet_packets"); *d=NA; d=mc_counter("depth"); *d=MAXD; }
    } else if(!strcmp(mode,"pad")){
-      DWIN=(int)mc_arg("--win",MC.tier?2100:600);
+      DWIN=(int)mc_arg("--win",MC.tier?4000:1600);
       c_pad_ok=mc_counter("pad_ok"); c_pad_rej=mc_counter("pad_shorter_refused"); c_unpad=mc_counter("unpad_calls"); c_pad_f3=mc_counter("hits_F3_pad_internal_error");
       S_padcls=mc_set_new(14);
-      build_seq_alphabet(4,0); build_pad_extras(); index_packets(); check_decl_table();
+      build_seq_alphabet(8,0); build_pad_extras(); index_packets(); check_decl_table();
       mc_info("pad: %d packets, new_len window len-1..len+%d plus boundary values",NA,DWIN);
       mc_par(NA,pad_item,NULL);
       *c_states=NA;
    } else if(!strcmp(mode,"ms")){
-      MS_FULL_S=(int)mc_arg("--full",4); MS_MAX_S=(int)mc_arg("--max",MC.tier?8:4); if(MS_MAX_S>8) MS_MAX_S=8; if(MS_FULL_S>MS_MAX_S) MS_FULL_S=MS_MAX_S;
+      MS_FULL_S=(int)mc_arg("--full",MC.tier?5:4); MS_MAX_S=(int)mc_arg("--max",8); if(MS_MAX_S>8) MS_MAX_S=8; if(MS_FULL_S>MS_MAX_S) MS_FULL_S=MS_MAX_S;
       c_ms_pad=mc_counter("ms_pad_calls"); c_ms_unpad=mc_counter("ms_unpad_calls"); c_ms_f3=mc_counter("hits_F3_ms_pad_internal_error"); c_ms_trunc=mc_counter("ms_truncated_inputs");
       S_mscls=mc_set_new(14);
       build_q();
